@@ -16,7 +16,7 @@ import (
 
 func init() {
 	Register(&Property{ID: "C05", Run: runC05,
-		Rule: "real Initiator + real Acceptor, both applications sending (bursts of 1-4), 15-80 steps with faults placed right after sends, during logon and during replays: link cut losing a chooser-picked suffix of the in-flight bytes per direction (also mid-message), half-open link then cut, reconnects refused for a while, engine crash and restart on its persistent store (file store: process-crash image or power-loss image with only synced data); HeartBtInt 2-5 s, ReconnectInterval 1-3 s, latency 0.1-20 ms; then a fault-free settle period and the end-to-end oracle; write errors on a cut link; orderly stop and recreation of an engine; EnableNextExpectedMsgSeqNum on both sides in a fifth of the FIX.4.4+ runs; one side's application answering every Logon from inside the callback. Non-trivial: at least one fault fired while messages were in flight or queued and both sides delivered something; distinct: canonical trace hash"})
+		Rule: "real Initiator + real Acceptor, both applications sending (bursts of 1-4), 15-80 steps with faults placed right after sends, during logon and during replays: link cut losing a chooser-picked suffix of the in-flight bytes per direction (also mid-message), half-open link then cut, reconnects refused for a while, engine crash and restart on its persistent store (file store: process-crash image or power-loss image with only synced data); HeartBtInt 2-5 s, ReconnectInterval 1-3 s, latency 0.1-20 ms; then a fault-free settle period and the end-to-end oracle; write errors on a cut link; orderly stop and recreation of an engine; EnableNextExpectedMsgSeqNum on both sides in a fifth of the FIX.4.4+ runs; one side's application answering every Logon from inside the callback; a SendToTarget in flight (inside its ToApp callback) across an orderly stop with the link down; a twelfth of the runs: a real initiator against the stub counterparty, a session-ending message with 2-4 complete frames behind it in one read - the initiator dials again, logs on, delivers. Non-trivial: at least one fault fired while messages were in flight or queued and both sides delivered something; distinct: canonical trace hash"})
 }
 
 type c05Side struct {
